@@ -13,6 +13,7 @@ import (
 	"runtime"
 	"strings"
 	"sync"
+	"sync/atomic"
 	"time"
 
 	lua "github.com/yuin/gopher-lua"
@@ -85,13 +86,33 @@ type ShareSpec struct {
 	Receiver string `json:"receiver"`
 }
 
+type StressSpec struct {
+	Producers int    `json:"producers"`
+	Consumers int    `json:"consumers"`
+	Cap       int    `json:"cap"`
+	N         int    `json:"n"`    // values per producer
+	Ctx       []bool `json:"ctx"`  // per consumer: state has a context
+	Work      int    `json:"work"` // busy iterations between two receives
+	Procs     int    `json:"procs"`
+	TimeoutMs int    `json:"timeout_ms"`
+}
+
+type StressObs struct {
+	Sent     int64 `json:"sent"`
+	Recvd    int64 `json:"recvd"`
+	Dups     int64 `json:"dups"`
+	Early    int64 `json:"early"`
+	Disorder int64 `json:"disorder"`
+}
+
 type Job struct {
-	ID    int        `json:"id"`
-	Share *ShareSpec `json:"share,omitempty"`
-	Kind  string     `json:"kind"` // hist iso share
-	KF    []string   `json:"kf,omitempty"`
-	Hist  *HistSpec  `json:"hist,omitempty"`
-	Iso   *IsoSpec   `json:"iso,omitempty"`
+	Stress *StressSpec `json:"stress,omitempty"`
+	ID     int         `json:"id"`
+	Share  *ShareSpec  `json:"share,omitempty"`
+	Kind   string      `json:"kind"` // hist iso share
+	KF     []string    `json:"kf,omitempty"`
+	Hist   *HistSpec   `json:"hist,omitempty"`
+	Iso    *IsoSpec    `json:"iso,omitempty"`
 }
 
 type IsoObs struct {
@@ -102,13 +123,14 @@ type IsoObs struct {
 }
 
 type Result struct {
-	ID     int      `json:"id"`
-	Start  bool     `json:"start,omitempty"`
-	Status string   `json:"status,omitempty"` // ok hang error
-	Msg    string   `json:"msg,omitempty"`
-	Log    []Event  `json:"log,omitempty"`
-	Iso    *IsoObs  `json:"iso,omitempty"`
-	Errs   []string `json:"errs,omitempty"`
+	ID     int        `json:"id"`
+	Start  bool       `json:"start,omitempty"`
+	Status string     `json:"status,omitempty"` // ok hang error
+	Msg    string     `json:"msg,omitempty"`
+	Log    []Event    `json:"log,omitempty"`
+	Iso    *IsoObs    `json:"iso,omitempty"`
+	Stress *StressObs `json:"stress,omitempty"`
+	Errs   []string   `json:"errs,omitempty"`
 }
 
 // ---------- child ----------
@@ -140,6 +162,8 @@ func childMain(path string) {
 			r = runIso(j.Iso)
 		case "share":
 			r = runShare(j.Share)
+		case "stress":
+			r = runStress(j.Stress)
 		default:
 			r = Result{Status: "error", Msg: "unknown job kind"}
 		}
@@ -700,4 +724,143 @@ func runShare(spec *ShareSpec) Result {
 		return Result{Status: "error", Msg: strings.Join(errs, "; ")}
 	}
 	return Result{Status: "ok"}
+}
+
+// ---------- high-volume competition on one buffered channel (no log; counters) ----------
+
+const stressProducer = `
+local base = PID * 10000000
+for i = 1, N do ch:send(base + i) end
+`
+
+// closure reported while no close has been invoked yet is counted and the consumer goes on, so
+// that one slip does not end the run
+const stressConsumer = `
+local last = {}
+local x = 0
+while true do
+  local ok, v = ch:receive()
+  if ok then
+    local p = math.floor(v / 10000000)
+    if last[p] and v <= last[p] then disorder() end
+    last[p] = v
+    seen(v)
+    for i = 1, WORK do x = x + i end
+  elseif close_invoked() then
+    break
+  else
+    early()
+  end
+end
+`
+
+func runStress(spec *StressSpec) Result {
+	if spec.Procs > 0 {
+		runtime.GOMAXPROCS(spec.Procs)
+	}
+	L0 := lua.NewState()
+	if err := L0.DoString(fmt.Sprintf("return channel.make(%d)", spec.Cap)); err != nil {
+		L0.Close()
+		return Result{Status: "error", Msg: "channel.make failed"}
+	}
+	lch := L0.Get(-1).(lua.LChannel)
+	L0.Close()
+	pp, err1 := compileSrc(stressProducer, "producer")
+	cp, err2 := compileSrc(stressConsumer, "consumer")
+	if err1 != nil || err2 != nil {
+		return Result{Status: "error", Msg: "stress scripts do not compile"}
+	}
+	counts := make([]uint32, (spec.Producers+1)*(spec.N+1))
+	var closeInvoked, early, disorder, recvd, dups int64
+	var errs []string
+	var emu sync.Mutex
+	var pw, cw sync.WaitGroup
+	fail := func(err error) {
+		emu.Lock()
+		errs = append(errs, trunc(err.Error(), 200))
+		emu.Unlock()
+	}
+	for p := 1; p <= spec.Producers; p++ {
+		pw.Add(1)
+		go func(p int) {
+			defer pw.Done()
+			L := lua.NewState()
+			defer L.Close()
+			L.SetGlobal("ch", lch)
+			L.SetGlobal("PID", lua.LNumber(p))
+			L.SetGlobal("N", lua.LNumber(spec.N))
+			L.Push(L.NewFunctionFromProto(pp))
+			if err := L.PCall(0, 0, nil); err != nil {
+				fail(err)
+			}
+		}(p)
+	}
+	for c := 0; c < spec.Consumers; c++ {
+		cw.Add(1)
+		go func(c int) {
+			defer cw.Done()
+			L := lua.NewState()
+			defer L.Close()
+			if c < len(spec.Ctx) && spec.Ctx[c] {
+				ctx, cancel := context.WithCancel(context.Background())
+				defer cancel()
+				L.SetContext(ctx)
+			}
+			L.SetGlobal("ch", lch)
+			L.SetGlobal("WORK", lua.LNumber(spec.Work))
+			L.SetGlobal("seen", L.NewFunction(func(L *lua.LState) int {
+				v := int64(L.CheckNumber(1))
+				p, i := v/10000000, v%10000000
+				atomic.AddInt64(&recvd, 1)
+				if p >= 1 && p <= int64(spec.Producers) && i >= 1 && i <= int64(spec.N) {
+					if atomic.AddUint32(&counts[p*int64(spec.N+1)+i], 1) > 1 {
+						atomic.AddInt64(&dups, 1)
+					}
+				} else {
+					atomic.AddInt64(&dups, 1) // a value nobody sent
+				}
+				return 0
+			}))
+			L.SetGlobal("early", L.NewFunction(func(L *lua.LState) int { atomic.AddInt64(&early, 1); runtime.Gosched(); return 0 }))
+			L.SetGlobal("disorder", L.NewFunction(func(L *lua.LState) int { atomic.AddInt64(&disorder, 1); return 0 }))
+			L.SetGlobal("close_invoked", L.NewFunction(func(L *lua.LState) int {
+				L.Push(lua.LBool(atomic.LoadInt64(&closeInvoked) != 0))
+				return 1
+			}))
+			L.Push(L.NewFunctionFromProto(cp))
+			if err := L.PCall(0, 0, nil); err != nil {
+				fail(err)
+			}
+		}(c)
+	}
+	done := make(chan struct{})
+	go func() {
+		pw.Wait()
+		atomic.StoreInt64(&closeInvoked, 1)
+		// closed through the library, by a state of its own
+		L := lua.NewState()
+		L.SetGlobal("ch", lch)
+		if err := L.DoString("ch:close()"); err != nil {
+			fail(err)
+		}
+		L.Close()
+		cw.Wait()
+		close(done)
+	}()
+	to := spec.TimeoutMs
+	if to <= 0 {
+		to = 60000
+	}
+	select {
+	case <-done:
+	case <-time.After(time.Duration(to) * time.Millisecond):
+		return Result{Status: "hang", Msg: "stress job still running after the time limit"}
+	}
+	obs := &StressObs{Sent: int64(spec.Producers) * int64(spec.N), Recvd: recvd, Dups: dups, Early: early, Disorder: disorder}
+	r := Result{Status: "ok", Stress: obs, Errs: errs}
+	if len(errs) > 0 {
+		r.Status = "error"
+		r.Msg = strings.Join(errs, "; ")
+	}
+	return r
 }
